@@ -56,6 +56,7 @@ type c15Call struct {
 type c15Case struct {
 	Opts  tblOpts   `json:"opts"`
 	Calls []c15Call `json:"calls"`
+	Mag   bool      `json:"mag,omitempty"` // the key comparator answers with magnitudes (multiples of the byte order), not just -1/0/1
 	// observations
 	CloseErr string   `json:"close_err,omitempty"`
 	Table    scanOut  `json:"table"`
@@ -76,7 +77,11 @@ func (c *c15Case) Exec() {
 	c.Fatal, c.CloseErr, c.OpenErr = "", "", ""
 	dir := tmpDir("c15-")
 	defer os.RemoveAll(dir)
-	w, err := sstables.NewSSTableStreamWriter(c.Opts.writerOptions(dir)...)
+	wopts := c.Opts.writerOptions(dir)
+	if c.Mag {
+		wopts = append(wopts, sstables.WithKeyComparator(magBytesCmp{}))
+	}
+	w, err := sstables.NewSSTableStreamWriter(wopts...)
 	must(err)
 	must(w.Open())
 	// the data writer sees one Write per call that passes the key check; the index writer one per
@@ -248,7 +253,7 @@ func genC15(r *rand.Rand, tier string) []Case {
 	bufs := []int{1, 7, 64, 4096}
 	var cases []Case
 	for i := 0; i < n; i++ {
-		c := &c15Case{Opts: tblOpts{IndexComp: r.Intn(4), DataComp: r.Intn(4), BloomN: 100, BloomP: 0.01, WBuf: bufs[r.Intn(len(bufs))]}}
+		c := &c15Case{Opts: tblOpts{IndexComp: r.Intn(4), DataComp: r.Intn(4), BloomN: 100, BloomP: 0.01, WBuf: bufs[r.Intn(len(bufs))]}, Mag: i%3 == 1}
 		ncalls := r.Intn(25)
 		cur := 0
 		for j := 0; j < ncalls; j++ {
